@@ -92,8 +92,32 @@ def valid_args(rng, method, world, orc):
     return table.get(method)
 
 
+FEATURE_KEYS = (('pruning', 'null'), ('tcp_port', '50001'), ('ssl_port', 'null'), ('server_version', '"ElectrumX 1.20"'),
+                ('protocol_min', '"1.4"'), ('protocol_max', '"1.4.2"'), ('genesis_hash', '"%s"' % ('00' * 32)), ('hash_function', '"sha256"'))
+
+
+def gen_features(rng, pool_generic, hosts=('8.8.8.8', '10.1.2.3', 'example.com', '1.2.3.4', 'x.onion')):
+    '''A feature dictionary of the announced shape (hosts -> host -> ports, pruning, versions ...) in which any value may be
+    replaced by any JSON value shape; built as text so that the raw tokens Infinity / NaN / 1e999 survive.'''
+    def v(default, p=0.3):
+        return rng.choice(pool_generic) if rng.random() < p else default
+    hostds = []
+    for h in rng.sample(hosts, rng.randrange(1, 3)):
+        ports = [f'"{k}":{v(d, 0.4)}' for k, d in (('tcp_port', '50001'), ('ssl_port', '50002')) if rng.random() < 0.7]
+        hostds.append(f'"{h}":{v("{" + ",".join(ports) + "}", 0.1)}')
+    items = ['"hosts":{' + ','.join(hostds) + '}']
+    for k, d in FEATURE_KEYS:
+        if rng.random() < 0.6:
+            items.append(f'"{k}":{v(d)}')
+    rng.shuffle(items)
+    return '{' + ','.join(items) + '}'
+
+
 def gen_request(rng, method, names, pool_generic, pool_plausible, world=None, orc=None):
     r = rng.random()
+    if method == 'server.add_peer' and rng.random() < 0.6:
+        f = gen_features(rng, pool_generic)
+        return '[' + f + ']' if rng.random() < 0.8 else '{"features":' + f + '}'
     if world is not None and rng.random() < 0.3:
         va = valid_args(rng, method, world, orc)
         if va is not None:
@@ -194,6 +218,10 @@ def child(case):
                 bump('sessions_opened')
             method = methods[(i + case['seed']) % len(methods)] if rng.random() < 0.8 else rng.choice(methods)
             params = gen_request(rng, method, METHODS[method], pg, pp, w, orc)
+            if method == 'server.add_peer':
+                # as if the ten-minute add_peer rate limit had been waited out (it is keyed on wall-clock time)
+                sm.peer_mgr.recent_peer_adds.clear()
+                bump('add_peer_requests')
             sess = client.session
             before = {'subs': dict(sess.hashX_subs), 'mps': dict(sess.mempool_statuses), 'hsub': sess.subscribe_headers,
                       'hist': {k: sm._history_cache.peek(k) for k in list(sm._history_cache.keys())},
